@@ -14,6 +14,7 @@ type Leaf struct {
 	Sort string
 	Ref  bool // the leaf holds a heap reference (pointer, map, chan, func, interface)
 	Tag  string // dynamic type tag of the referenced object ("" = unknown, e.g. interfaces)
+	ArrRef bool   // the leaf is an array (slice backing store) of references
 }
 
 type Shape []Leaf
@@ -69,11 +70,11 @@ func shapeOf1(t types.Type) Shape {
 		}
 		return Shape{{Name: "", Sort: sInt}}
 	case *types.Pointer, *types.Map, *types.Chan, *types.Signature, *types.Interface:
-		return Shape{{"", sInt, true, refTag(t)}}
+		return Shape{{Name: "", Sort: sInt, Ref: true, Tag: refTag(t)}}
 	case *types.Slice:
 		sh := Shape{{Name: "$len", Sort: sInt}, {Name: "$nil", Sort: sBool}}
 		for _, l := range shapeOf(u.Elem()) {
-			sh = append(sh, Leaf{Name: "$arr" + l.Name, Sort: arrSort(sInt, l.Sort)})
+			sh = append(sh, Leaf{Name: "$arr" + l.Name, Sort: arrSort(sInt, l.Sort), ArrRef: l.Ref, Tag: l.Tag})
 		}
 		return sh
 	case *types.Array:
@@ -87,7 +88,7 @@ func shapeOf1(t types.Type) Shape {
 		for i := 0; i < u.NumFields(); i++ {
 			f := u.Field(i)
 			for _, l := range shapeOf(f.Type()) {
-				sh = append(sh, Leaf{"." + f.Name() + l.Name, l.Sort, l.Ref, l.Tag})
+				sh = append(sh, Leaf{"." + f.Name() + l.Name, l.Sort, l.Ref, l.Tag, l.ArrRef})
 			}
 		}
 		if len(sh) == 0 {
@@ -99,7 +100,7 @@ func shapeOf1(t types.Type) Shape {
 		sh := Shape{}
 		for i := 0; i < u.Len(); i++ {
 			for _, l := range shapeOf(u.At(i).Type()) {
-				sh = append(sh, Leaf{fmt.Sprintf("#%d%s", i, l.Name), l.Sort, l.Ref, l.Tag})
+				sh = append(sh, Leaf{fmt.Sprintf("#%d%s", i, l.Name), l.Sort, l.Ref, l.Tag, l.ArrRef})
 			}
 		}
 		return sh
